@@ -43,6 +43,54 @@ class ConnectTransH(_H):
         return v, ref
 
 
+class ConnectTransValH(_H):
+    """ConnectTrans between a source and a method with validate_arguments (rejects 0) that forwards to a sink: the transfer
+    happens exactly when both ends are ready and the value is accepted."""
+
+    def make(self):
+        from amaranth import Elaboratable
+        from transactron import Method, TModule, def_method
+        from transactron.lib.connectors import ConnectTrans, CrossbarConnectTrans
+        w, xbar = self.cfg["w"], self.cfg.get("crossbar", False)
+
+        class Top(Elaboratable):
+            def __init__(self):
+                self.src = Method(o=[("y", w)])
+                self.sink = Method(i=[("y", w)])
+
+            def elaborate(self, platform):
+                m = TModule()
+                v = Method(i=[("y", w)])
+
+                @def_method(m, v, validate_arguments=lambda y: y != 0)
+                def _(y):
+                    self.sink(m, y=y)
+
+                if xbar:
+                    m.submodules.ct = CrossbarConnectTrans.create(v, self.src)
+                else:
+                    m.submodules.ct = ConnectTrans.create(v, self.src)
+                return m
+
+        top = Top()
+        return top, [("src", "a", top.src), ("sink", "a", top.sink)]
+
+    def step(self, ref, inp, obs):
+        c = self.calls(inp, obs)
+        s, k = c["src"], c["sink"]
+        exp = s.en & k.en & (s.data != 0)
+        v = []
+        if s.done != exp or k.done != exp:
+            v.append(f"transfer_iff_both_ready: src.ready={s.en} value={s.data} sink.ready={k.en} src.run={s.done} sink.run={k.done}")
+        elif exp:
+            if k.out != s.data:
+                v.append(f"data: sink received {k.out}, source returned {s.data}")
+            self.count("nt_transfer")
+        elif s.en and k.en:
+            self.count("nt_rejected_value")
+        return v, ref
+
+
 class CrossbarH(_H):
     def make(self):
         from transactron.lib.connectors import CrossbarConnectTrans
@@ -244,6 +292,77 @@ class MethodTryProductH(_H):
         return v, ref
 
 
+class MethodTryProductContendH(_H):
+    """MethodTryProduct (2 targets, custom combiner reporting the success bits) whose target 0 is also called by another
+    transaction X: a target that is ready but granted to X must not be reported as succeeded."""
+
+    def make(self):
+        from amaranth import Cat, Elaboratable, Signal
+        from transactron import Method, TModule, Transaction
+        from transactron.lib.transformers import MethodTryProduct
+        first = self.cfg["x_first"]
+
+        class Top(Elaboratable):
+            def __init__(self):
+                self.t = [Method(i=[("d", 1)], o=[("r", 1)]) for _ in range(2)]
+                self.xen = Signal(name="xen")
+                self.xrun = Signal(name="xrun")
+
+                def fn(m, xs):
+                    return {"s": Cat(s for s, _ in xs), "q": Cat(r.r for _, r in xs)}
+                self.p = MethodTryProduct.create(self.t, ([("s", 2), ("q", 2)], fn))
+                self.method = self.p.method
+
+            def elaborate(self, platform):
+                m = TModule()
+
+                def xtrans():
+                    x = Transaction(name="X")
+                    with x.body(m, ready=self.xen):
+                        self.t[0](m, d=1)
+                    m.d.top_comb += self.xrun.eq(x.run)
+
+                if first:
+                    xtrans()
+                m.submodules.p = self.p
+                if not first:
+                    xtrans()
+                return m
+
+        top = Top()
+        return top, [("call", "t", top.method), ("t0", "a", top.t[0]), ("t1", "a", top.t[1])], [("xen", top.xen)], [("xrun", top.xrun)]
+
+    def alphabet(self, ref):
+        if not hasattr(self, "_alpha"):
+            self._alpha = self.product({p.name: opts(p.in_width) for p in self.ports}, {"xen": [0, 1]})
+        return self._alpha
+
+    def step(self, ref, inp, obs):
+        c = self.calls(inp, obs)
+        call, t0, t1 = c["call"], c["t0"], c["t1"]
+        xrun = self.xobs(obs, "xrun")
+        v = []
+        if call.done != call.en:
+            v.append(f"ready: the try-product must never block (en={call.en} done={call.done})")
+        if xrun and not (self.xin(inp, "xen") and t0.en):
+            v.append("contender: X runs while it or target 0 is not ready")
+        if t0.done != (t0.en and (xrun or call.done)):
+            v.append(f"target0.run: ready={t0.en} run={t0.done} X.run={xrun} product.run={call.done}")
+        if t1.done != (call.done & t1.en):
+            v.append(f"exactly_ready_targets_called: target 1 ready={t1.en} run={t1.done} method run={call.done}")
+        if call.done and not v:
+            won0 = bool(t0.done and not xrun)
+            s = call.out & 3
+            exp = int(won0) | (int(bool(t1.done)) << 1)
+            if s != exp:
+                v.append(f"success_bits: reported {s:02b}, the product's calls that ran {exp:02b} (target 0 granted to X: {bool(xrun)})")
+            if won0 and t0.out != call.data:
+                v.append(f"argument: target 0 received {t0.out}, caller passed {call.data}")
+            if xrun and t0.en:
+                self.count("nt_target_lost_to_contender")
+        return v, ref
+
+
 class NonexclusiveWrapperH(_H):
     def nonexclusive_ports(self):
         return {"c1", "c2"}
@@ -351,6 +470,11 @@ def jobs(tier):
                 js.append(E1("checks.c18", "MethodProductH", {"n": n, "w": w, "combiner": cb, "reduced": red}))
                 js.append(E1("checks.c18", "MethodTryProductH", {"n": n, "w": w, "combiner": cb, "reduced": red}))
         js.append(E1("checks.c18", "NonexclusiveWrapperH", {"w": w}))
+        js.append(E1("checks.c18", "ConnectTransValH", {"w": w}))
+        js.append(E1("checks.c18", "ConnectTransValH", {"w": w, "crossbar": True}))
+        if w == 1:
+            for xf in (False, True):
+                js.append(E1("checks.c18", "MethodTryProductContendH", {"x_first": xf}))
         for n in (1, 2, 3):
             js.append(E1("checks.c18", "CollectorH", {"n": n, "w": w, "reduced": n * w > 3}))
     return js
@@ -367,4 +491,5 @@ def run(rep, tier):
     rep.add_e1(run_jobs(jobs(tier)))
     return {"states": 25, "transitions": 2000, "replayed": 25, "nt_transfer": 4, "nt_two_transfers": 4, "nt_called": 20,
             "nt_passed": 8, "nt_filtered": 8, "nt_filtered_while_target_unready": 4, "nt_partial": 8,
-            "nt_forwarded_same_cycle": 2, "nt_target_waits": 2, "nt_both_callers": 2}
+            "nt_forwarded_same_cycle": 2, "nt_target_waits": 2, "nt_both_callers": 2, "nt_rejected_value": 2,
+            "nt_target_lost_to_contender": 2}
